@@ -1,4 +1,329 @@
-import DcVerif.Model.Ring
+import DcVerif.Lemmas.RingLive
+/-!
+# C06 — the ring buffer never deadlocks or loses a wake-up; `write`, `drain` and join terminate
+
+Model: `Model/Ring.lean` (single producer; one step per facade operation: every load / store of a sequence counter and of
+`is_done`, every mutex lock / unlock, `cvar.wait`, `notify_all`, every handler call and slot write; both wait
+strategies). A `lock` step on a taken mutex and the `relock` step of a handler that is parked and not notified (or
+finds the mutex taken) are *stutters*; `Ring.enabled x t` says that the next step of thread `t` is not a stutter.
+`drain` computes `next_write_sequence.saturating_sub(1)` (defect F6 repaired in /repo), the drain loop of the blocking
+strategy signals on every iteration, `drain` stores `is_done` and signals, `Drop` stores it again and signals again.
+
+`terminal x` = the producer has returned from every `write`, from `drain` and from `Drop` (`pc = done`) and every
+handler thread of the topology has left its loop (`pc = done`), i.e. joining the executor returns.
+
+Schedules are infinite sequences `σ : Nat → Tid`; `Fair.run stepX σ x i` is the state after `i` scheduled steps.
+
+* (a) spin strategy, full statement: `c06_spin_terminates`, `c06_write_returns`, `c06_zero_events_drains` — every
+  *weakly fair* schedule (every thread of the topology is scheduled infinitely often) reaches a terminal state; every
+  batch has then been claimed, written and published.
+* (b) both strategies, every schedule: `c06_no_deadlock` (some thread always has an enabled step),
+  `c06_mutual_exclusion`, `c06_no_lost_wakeup`, `c06_wait_conditions_stable`, `c06_all_written_at_exit`.
+* (c) blocking strategy: `c06_blocking_terminates`, `c06_blocking_write_returns` — the same conclusion as (a) for every
+  schedule that is weakly fair and *strongly fair for lock acquisition* (`LockFair`: a thread whose `lock` / `relock`
+  step is enabled infinitely often eventually takes it); `c06_blocking_some_thread_ready` (deadlock freedom in the
+  strong sense: some thread can always make progress).
+
+Not covered by the model: the multi-producer sequencer (known findings F7/F8/F11 are exhibited by the correspondence
+run), the fairness of the real OS scheduler and of `std::sync::Mutex`, timing, spurious condvar wake-ups.
+-/
 namespace C06
-theorem placeholder : True := trivial
+open Ring
+
+/-- weak fairness, spelled out: every thread of the topology (the producer/draining thread and every handler `(k,j)` with
+`k < K`, `j < h k`) is scheduled infinitely often -/
+def WeaklyFair (K : Nat) (h : Nat → Nat) (σ : Nat → Tid) : Prop :=
+  ∀ t, inTopo K h t → ∀ i, ∃ m, i ≤ m ∧ σ m = t
+
+theorem tiles_sum {a b : Nat} {cs : List (Nat × Nat × Nat)} (h : Tiles a cs b) :
+    b = a + (cs.map (·.2.2)).sum := by
+  induction h with
+  | nil a => simp
+  | cons h1 h2 h3 _ ih => subst h1; simp only [List.map_cons, List.sum_cons]; omega
+
+/-! ## (a) spin strategy: termination under weak fairness -/
+
+/-- **C06, spin strategy.** For every ring size `n`, every topology (`K ≥ 1` stages, every stage at least one handler),
+every list of batches with `1 ≤ b ≤ n` (this includes the batches `b < n` of the property, and the *empty* list: a
+pipeline that is drained without ever publishing) and every weakly fair schedule, the pipeline reaches the state in
+which all `write` calls, `drain` and `Drop` have returned and every handler thread has terminated. -/
+theorem c06_spin_terminates (n K : Nat) (h : Nat → Nat) (batches : List Nat)
+    (hK : 0 < K) (hh : ∀ k, k < K → 0 < h k) (hb : ∀ b, b ∈ batches → 1 ≤ b ∧ b ≤ n)
+    (σ : Nat → Tid) (hfair : WeaklyFair K h σ) :
+    ∃ t, terminal (Fair.run stepX σ (mk n K h false batches) t) :=
+  Spin.ring_terminates (mk n K h false batches) (Spin.linv_init n K h batches hK hh hb) σ hfair
+
+/-- non-vacuity: a concrete weakly fair schedule (producer and the single handler alternate) -/
+def alt : Nat → Tid := fun i => if i % 2 = 0 then .prod else .cons 0 0
+
+theorem alt_fair : WeaklyFair 1 (fun _ => 1) alt := by
+  intro t ht i
+  cases t with
+  | prod => exact ⟨2 * i, by omega, by simp [alt]⟩
+  | cons k j =>
+    obtain ⟨hk, hj⟩ := ht
+    change j < 1 at hj
+    have hk0 : k = 0 := by omega
+    have hj0 : j = 0 := by omega
+    subst hk0; subst hj0
+    exact ⟨2 * i + 1, by omega, by simp [alt]⟩
+
+example : ∃ t, terminal (Fair.run stepX alt (mk 4 1 (fun _ => 1) false [2, 3, 1, 4]) t) :=
+  c06_spin_terminates 4 1 (fun _ => 1) [2, 3, 1, 4] (by omega) (fun _ _ => Nat.one_pos)
+    (by intro b hb; simp at hb; omega) alt alt_fair
+
+/-- **when the run is over every `write` has returned with its batch published** (both strategies, every schedule):
+in a terminal state no batch is left, every batch of the input became — in order — one claim of exactly its length,
+the claims tile `[0, next_write)`, exactly these sequences were written to slots, and the cursor stands at the last
+one (`cursor + 1 = next_write = Σ batches`; `0 = 0` when nothing was published). -/
+theorem c06_all_written_at_exit (n K : Nat) (h : Nat → Nat) (blocking : Bool) (batches : List Nat)
+    (hK : 0 < K) (hh : ∀ k, k < K → 0 < h k) (hb : ∀ b, b ∈ batches → 1 ≤ b)
+    (σ : Nat → Tid) (i : Nat) (ht : terminal (Fair.run stepX σ (mk n K h blocking batches) i)) :
+    let x := Fair.run stepX σ (mk n K h blocking batches) i
+    x.p.todo = [] ∧ x.p.claims.map (·.2.2) = batches ∧ Tiles 0 x.p.claims x.p.nextWrite ∧
+    x.p.nextWrite = batches.sum ∧ x.p.written = List.range' 0 batches.sum ∧
+    (x.s.cursor + 1 = batches.sum ∨ (x.s.cursor = 0 ∧ batches.sum = 0)) := by
+  intro x
+  have hW : WInv batches x.p := winv_run batches σ _ (winv_init n K h blocking batches) i
+  have hA : PInvAll x := inv_frun σ _ (inv_init n K h blocking batches hK hh hb) i
+  have hpc : x.p.pc = .done := ht.1
+  obtain ⟨_, _, hP, _⟩ := hA
+  have h1 : x.p.todo = [] := hW.empty (by simp [hpc, PPc.draining])
+  have h2 : x.p.claims.map (·.2.2) = batches := by
+    have := hW.split; simpa [hpc, h1] using this
+  have h3 : Tiles 0 x.p.claims x.p.nextWrite := by have := hP.tiles; simpa [hpc] using this
+  have h4 : x.p.nextWrite = batches.sum := by have := tiles_sum h3; rw [h2] at this; omega
+  have h5 := hP.wrote
+  have h6 := hP.nw (by simp [hpc, PPc.idle])
+  simp only [hpc] at h5
+  refine ⟨h1, h2, h3, h4, by rw [← h4]; simpa using h5, by rw [← h4]; exact h6⟩
+
+/-- **C06, spin strategy: every `write` returns.** Under every weakly fair schedule a moment is reached at which all
+threads have finished *and* every batch has been claimed with its exact length, written and published. -/
+theorem c06_write_returns (n K : Nat) (h : Nat → Nat) (batches : List Nat)
+    (hK : 0 < K) (hh : ∀ k, k < K → 0 < h k) (hb : ∀ b, b ∈ batches → 1 ≤ b ∧ b ≤ n)
+    (σ : Nat → Tid) (hfair : WeaklyFair K h σ) :
+    ∃ t, terminal (Fair.run stepX σ (mk n K h false batches) t) ∧
+      (Fair.run stepX σ (mk n K h false batches) t).p.claims.map (·.2.2) = batches ∧
+      (Fair.run stepX σ (mk n K h false batches) t).p.written = List.range' 0 batches.sum ∧
+      ((Fair.run stepX σ (mk n K h false batches) t).s.cursor + 1 = batches.sum ∨
+        ((Fair.run stepX σ (mk n K h false batches) t).s.cursor = 0 ∧ batches.sum = 0)) := by
+  obtain ⟨t, ht⟩ := c06_spin_terminates n K h batches hK hh hb σ hfair
+  obtain ⟨_, h2, _, _, h5, h6⟩ :=
+    c06_all_written_at_exit n K h false batches hK hh (fun b hbm => (hb b hbm).1) σ t ht
+  exact ⟨t, ht, h2, h5, h6⟩
+
+example : ∃ t, terminal (Fair.run stepX alt (mk 4 1 (fun _ => 1) false [2, 3]) t) ∧
+    (Fair.run stepX alt (mk 4 1 (fun _ => 1) false [2, 3]) t).p.written = [0, 1, 2, 3, 4] := by
+  obtain ⟨t, h1, _, h3, _⟩ := c06_write_returns 4 1 (fun _ => 1) [2, 3] (by omega) (fun _ _ => Nat.one_pos)
+    (by intro b hb; simp at hb; omega) alt alt_fair
+  exact ⟨t, h1, by rw [h3]; rfl⟩
+
+/-- **C06, spin strategy: a pipeline drained without ever publishing.** With no batch at all, every weakly fair schedule
+reaches the terminal state (`drain` and join return); nothing was written and no handler was ever invoked. -/
+theorem c06_zero_events_drains (n K : Nat) (h : Nat → Nat)
+    (hK : 0 < K) (hh : ∀ k, k < K → 0 < h k) (σ : Nat → Tid) (hfair : WeaklyFair K h σ) :
+    ∃ t, terminal (Fair.run stepX σ (mk n K h false []) t) ∧
+      (Fair.run stepX σ (mk n K h false []) t).s.cursor = 0 ∧
+      (Fair.run stepX σ (mk n K h false []) t).p.written = [] ∧
+      ∀ k j, k < K → j < h k → ((Fair.run stepX σ (mk n K h false []) t).s.cons k j).log = [] := by
+  obtain ⟨t, ht, _, h3, h4⟩ := c06_write_returns n K h [] hK hh (by simp) σ hfair
+  have hA : PInvAll (Fair.run stepX σ (mk n K h false []) t) :=
+    inv_frun σ _ (inv_init n K h false [] hK hh (by simp)) t
+  have hcur : (Fair.run stepX σ (mk n K h false []) t).s.cursor = 0 := by
+    rcases h4 with h4 | h4
+    · simp at h4
+    · exact h4.1
+  refine ⟨t, ht, hcur, by simpa using h3, ?_⟩
+  intro k j hk hj
+  obtain ⟨eK, eh, _⟩ := topo_frun σ (mk n K h false []) t
+  have eK : (Fair.run stepX σ (mk n K h false []) t).s.K = K := eK
+  have eh : (Fair.run stepX σ (mk n K h false []) t).s.h = h := eh
+  have hk' : k < (Fair.run stepX σ (mk n K h false []) t).s.K := by rw [eK]; exact hk
+  have hj' : j < (Fair.run stepX σ (mk n K h false []) t).s.h k := by rw [eh]; exact hj
+  have hci := hA.1.2 k j hk' hj'
+  have hpc := ht.2 k j hk' hj'
+  have hlog := hci.logO (by simp [hpc]) (by simp [hpc])
+  have hup := chain_up _ hA.1 k j hk' hj'
+  rw [hcur] at hup
+  have : ((Fair.run stepX σ (mk n K h false []) t).s.cons k j).cur = 0 := by omega
+  rw [hlog, this]; rfl
+
+example : ∃ t, terminal (Fair.run stepX alt (mk 8 1 (fun _ => 1) false []) t) := by
+  obtain ⟨t, h, _⟩ := c06_zero_events_drains 8 1 (fun _ => 1) (by omega) (fun _ _ => Nat.one_pos) alt alt_fair
+  exact ⟨t, h⟩
+
+/-! ## (b) both strategies, every schedule: deadlock freedom, mutual exclusion, no lost wake-up -/
+
+/-- **C06: no deadlock** (spin *and* blocking strategy, every reachable state of every configuration, every schedule).
+As long as the run is not over, some thread of the topology has an enabled step: not a `lock` on a taken mutex and not
+the re-acquisition of a handler that is parked on the condvar without having been notified. -/
+theorem c06_no_deadlock {x : PSt} (hr : Reachable x) (hnt : ¬ terminal x) :
+    ∃ t, inTopo x.s.K x.s.h t ∧ enabled x t = true :=
+  exists_enabled (reachable_binv hr) hnt
+
+/-- non-vacuity: a blocking pipeline in the middle of a run — the handler has parked itself on the condvar (7 steps),
+then the producer has written and published a batch of two and stands before the `lock` of its `signal()` (6 steps) -/
+def parkedState : PSt :=
+  runX (mk 4 1 (fun _ => 1) true [2])
+    [.cons 0 0, .cons 0 0, .cons 0 0, .cons 0 0, .cons 0 0, .cons 0 0, .cons 0 0,
+     .prod, .prod, .prod, .prod, .prod, .prod]
+
+theorem parkedState_reachable : Reachable parkedState :=
+  ⟨4, 1, fun _ => 1, true, [2], _, by omega, fun _ _ => Nat.one_pos, by intro b hb; simp at hb; omega, rfl⟩
+
+theorem parkedState_facts :
+    (parkedState.s.cons 0 0).pc = .bRelock ∧ parkedState.s.woken 0 0 = false ∧ parkedState.s.cursor = 1 ∧
+    (parkedState.s.cons 0 0).cur = 0 ∧ parkedState.p.pc = .pLock ∧ parkedState.s.mtx = none := by
+  decide
+
+example : ∃ t, inTopo parkedState.s.K parkedState.s.h t ∧ enabled parkedState t = true :=
+  c06_no_deadlock parkedState_reachable (by intro h; have := h.1; simp [parkedState_facts.2.2.2.2.1] at this)
+
+/-- **C06: mutual exclusion / ownership of the wait strategy's mutex** (blocking strategy, every schedule): a thread is
+at a program point between its `lock` and its `unlock` / `cvar.wait` exactly when the model's mutex is owned by it; in
+particular no two threads are inside their critical sections (check-and-park, `notify_all`) at the same time. -/
+theorem c06_mutual_exclusion {x : PSt} (hr : Reachable x) (hb : x.s.blocking = true) :
+    (∀ k j, k < x.s.K → j < x.s.h k → (cHold (x.s.cons k j).pc = true ↔ x.s.mtx = some (.cons k j))) ∧
+    (pHold x.p.pc = true ↔ x.s.mtx = some .prod) ∧
+    (∀ k j k' j', k < x.s.K → j < x.s.h k → k' < x.s.K → j' < x.s.h k' →
+        cHold (x.s.cons k j).pc = true → cHold (x.s.cons k' j').pc = true → k = k' ∧ j = j') ∧
+    (∀ k j, k < x.s.K → j < x.s.h k → cHold (x.s.cons k j).pc = true → pHold x.p.pc = false) := by
+  have hM := (reachable_binv hr).mtx
+  refine ⟨fun k j hk hj => (hM.blkC hb k j hk hj).1, hM.blkP hb, ?_, ?_⟩
+  · intro k j k' j' hk hj hk' hj' h1 h2
+    have e1 := ((hM.blkC hb k j hk hj).1).1 h1
+    have e2 := ((hM.blkC hb k' j' hk' hj').1).1 h2
+    rw [e1] at e2
+    injection e2 with e2; injection e2 with a b
+    exact ⟨a, b⟩
+  · intro k j hk hj h1
+    have e1 := ((hM.blkC hb k j hk hj).1).1 h1
+    cases hp : pHold x.p.pc
+    · rfl
+    · have := (hM.blkP hb).1 hp
+      rw [e1] at this; cases this
+
+/-- **C06: no lost wake-up** (every reachable state, every schedule). Whenever a handler is parked on the condvar
+(`bRelock`: it has executed `cvar.wait`, which released the mutex) and its wait condition already holds (every
+dependency cursor `≥ next`) or `is_done` is set, then either it has been notified (`woken`), or some *other* thread is
+at a program point between its store and the `notify_all` of its `signal()` — the producer at
+`pLock/pNotify` (after the cursor store), `dLock/dNotify` (drain loop), `eLock/eNotify` (after `is_done := true` in
+`drain`), `fLock/fNotify` (after the store in `Drop`), or a handler at `sLock/sNotify` (after its cursor store) — from
+which it executes `notify_all` before it can block. Check-and-park is atomic under the mutex (`bLock … bWait`). -/
+theorem c06_no_lost_wakeup {x : PSt} (hr : Reachable x) (k j : Nat) (hk : k < x.s.K) (hj : j < x.s.h k)
+    (hpark : (x.s.cons k j).pc = .bRelock) (hc : condC x.s k (x.s.cons k j) ∨ x.s.isDone = true) :
+    x.s.woken k j = true ∨ pPend x.p.pc = true ∨
+      ∃ k' j', k' < x.s.K ∧ j' < x.s.h k' ∧ (k', j') ≠ (k, j) ∧ cPend (x.s.cons k' j').pc = true :=
+  no_lost_wakeup (reachable_binv hr) k j hk hj hpark hc
+
+/-- non-vacuity: in `parkedState` the handler is parked, not notified, its condition holds — and indeed the producer
+stands before its `signal()` -/
+example : pPend parkedState.p.pc = true := by
+  have hf := parkedState_facts
+  have hcond : condC parkedState.s 0 (parkedState.s.cons 0 0) := by
+    intro d _; simp only [dep, if_true]; rw [hf.2.2.1, hf.2.2.2.1]; omega
+  rcases c06_no_lost_wakeup parkedState_reachable 0 0 (by decide) (by decide) hf.1 (Or.inl hcond) with h | h | h
+  · rw [hf.2.1] at h; cases h
+  · exact h
+  · obtain ⟨k', j', hk', hj', hne, _⟩ := h
+    have hK : parkedState.s.K = 1 := by decide
+    have hh : parkedState.s.h k' = 1 := rfl
+    exfalso; apply hne
+    have : k' = 0 := by omega
+    have : j' = 0 := by omega
+    subst_vars; rfl
+
+/-- **C06: wait conditions are monotone** (every schedule): a handler's wait condition, the producer's gate condition
+and its drain condition, once true, stay true under every step of every thread (for the handler: as long as its own
+cursor is unchanged), and `is_done` is never reset. Together with `c06_no_lost_wakeup` this is why a thread whose
+condition has become true cannot be blocked for ever. -/
+theorem c06_wait_conditions_stable {x : PSt} (hr : Reachable x) (t : Tid) :
+    (∀ k j, ((stepX x t).s.cons k j).cur = (x.s.cons k j).cur → condC x.s k (x.s.cons k j) →
+        condC (stepX x t).s k ((stepX x t).s.cons k j)) ∧
+    (∀ stop, condG x.s stop → condG (stepX x t).s stop) ∧
+    (∀ nw, condD x.s nw → condD (stepX x t).s nw) ∧
+    (x.s.isDone = true → (stepX x t).s.isDone = true) := by
+  have hB := reachable_binv hr
+  exact ⟨fun k j hcur hc => condC_stable x t hB.base k j hcur hc,
+         fun stop hc => condG_stable x t hB.base stop hc,
+         fun nw hc => condD_stable x t hB.base nw hc,
+         fun hd => isDone_stable x t hB.mtx hd⟩
+
+/-! ## (c) blocking strategy: termination under weak fairness + strong fairness of lock acquisition -/
+
+/-- strong fairness of lock acquisition (the assumption about `std::sync::Mutex` / the OS recorded in DESIGN.md §7 C06):
+a thread of the topology whose `lock` step — or the re-acquisition after `cvar.wait`, which additionally needs the
+notification — is enabled infinitely often along the run eventually takes it while it is enabled. Every other step is
+always enabled, for those weak fairness suffices. -/
+def LockFair (K : Nat) (h : Nat → Nat) (σ : Nat → Tid) (x0 : PSt) : Prop :=
+  ∀ t, inTopo K h t →
+    (∀ i, ∃ m, i ≤ m ∧ Blk.atLock (Fair.run stepX σ x0 m) t = true ∧ enabled (Fair.run stepX σ x0 m) t = true) →
+    ∀ i, ∃ m, i ≤ m ∧ σ m = t ∧ Blk.atLock (Fair.run stepX σ x0 m) t = true ∧
+      enabled (Fair.run stepX σ x0 m) t = true
+
+/-- **C06, blocking strategy.** For every ring size `n`, every topology (`K ≥ 1`, every stage at least one handler),
+every list of batches with `1 ≤ b ≤ n` (including the empty list) and every schedule that is weakly fair and strongly
+fair for lock acquisition, the pipeline with the *blocking* wait strategy reaches the state in which all `write`
+calls, `drain` and `Drop` have returned and every handler thread has terminated: no wake-up is lost, nobody waits for
+ever on the mutex or on the condvar.
+
+Proof: `Fair.fair_termination_sf` with the measure `(2·#handlers + 1) · remaining work + outstanding wake-ups`
+(`Blk.μ`), the readiness predicate `Blk.ready` (a thread whose wait is over, a handler on its way to park although its
+wait is over, or the notifier such a parked handler waits for — `Blk.exists_ready` is deadlock freedom in this strong
+sense and uses `no_lost_wakeup`), per-thread ranks `Blk.rank`, and "the owner of the mutex releases it after at most
+`Blk.hrank` own steps". -/
+theorem c06_blocking_terminates (n K : Nat) (h : Nat → Nat) (batches : List Nat)
+    (hK : 0 < K) (hh : ∀ k, k < K → 0 < h k) (hb : ∀ b, b ∈ batches → 1 ≤ b ∧ b ≤ n)
+    (σ : Nat → Tid) (hfair : WeaklyFair K h σ) (hlock : LockFair K h σ (mk n K h true batches)) :
+    ∃ t, terminal (Fair.run stepX σ (mk n K h true batches) t) :=
+  Blk.ring_terminates (mk n K h true batches) (Blk.jinv_init n K h batches hK hh hb) σ hfair
+    (Blk.strongFair_of_lockFair _ σ _ hfair hlock)
+
+/-- `write` returns under the blocking strategy as well: at the moment the run is over every batch has been claimed
+with its exact length, written and published -/
+theorem c06_blocking_write_returns (n K : Nat) (h : Nat → Nat) (batches : List Nat)
+    (hK : 0 < K) (hh : ∀ k, k < K → 0 < h k) (hb : ∀ b, b ∈ batches → 1 ≤ b ∧ b ≤ n)
+    (σ : Nat → Tid) (hfair : WeaklyFair K h σ) (hlock : LockFair K h σ (mk n K h true batches)) :
+    ∃ t, terminal (Fair.run stepX σ (mk n K h true batches) t) ∧
+      (Fair.run stepX σ (mk n K h true batches) t).p.claims.map (·.2.2) = batches ∧
+      (Fair.run stepX σ (mk n K h true batches) t).p.written = List.range' 0 batches.sum ∧
+      ((Fair.run stepX σ (mk n K h true batches) t).s.cursor + 1 = batches.sum ∨
+        ((Fair.run stepX σ (mk n K h true batches) t).s.cursor = 0 ∧ batches.sum = 0)) := by
+  obtain ⟨t, ht⟩ := c06_blocking_terminates n K h batches hK hh hb σ hfair hlock
+  obtain ⟨_, h2, _, _, h5, h6⟩ :=
+    c06_all_written_at_exit n K h true batches hK hh (fun b hbm => (hb b hbm).1) σ t ht
+  exact ⟨t, ht, h2, h5, h6⟩
+
+set_option maxRecDepth 20000 in
+/-- non-vacuity of the fairness hypotheses: the alternating schedule is weakly fair and lock-fair for the blocking
+pipeline `n = 2`, one handler, batches `[1, 1]` — under it the run is over after 83 steps (checked by evaluation) -/
+theorem alt_lockfair : LockFair 1 (fun _ => 1) alt (mk 2 1 (fun _ => 1) true [1, 1]) := by
+  have hT : terminal (Fair.run stepX alt (mk 2 1 (fun _ => 1) true [1, 1]) 83) := by
+    refine ⟨by decide, ?_⟩
+    intro k j hk hj
+    have hK : (Fair.run stepX alt (mk 2 1 (fun _ => 1) true [1, 1]) 83).s.K = 1 := (topo_frun _ _ _).1
+    have hh : (Fair.run stepX alt (mk 2 1 (fun _ => 1) true [1, 1]) 83).s.h = fun _ => 1 := (topo_frun _ _ _).2.1
+    rw [hK] at hk; rw [hh] at hj
+    have hk0 : k = 0 := by omega
+    have hj0 : j = 0 := by simp at hj; omega
+    subst hk0; subst hj0
+    decide
+  exact Blk.lockFair_of_terminates alt _ 83 hT
+
+example : ∃ t, terminal (Fair.run stepX alt (mk 2 1 (fun _ => 1) true [1, 1]) t) :=
+  c06_blocking_terminates 2 1 (fun _ => 1) [1, 1] (by omega) (fun _ _ => Nat.one_pos)
+    (by intro b hb; simp at hb; omega) alt alt_fair alt_lockfair
+
+/-- **C06, blocking strategy: no deadlock in the strong sense** (every schedule). As long as the run is not over,
+some thread of the topology is *ready*: its wait is over (or it never waits) and it reaches its next progress event
+after a bounded number of own steps — or it is the thread that is about to deliver the wake-up a parked handler is
+waiting for. (For the spin strategy the same statement is `Spin.exists_ready`.) -/
+theorem c06_blocking_some_thread_ready (n K : Nat) (h : Nat → Nat) (batches : List Nat)
+    (hK : 0 < K) (hh : ∀ k, k < K → 0 < h k) (hb : ∀ b, b ∈ batches → 1 ≤ b ∧ b ≤ n) (sched : List Tid)
+    (hnt : ¬ terminal (runX (mk n K h true batches) sched)) :
+    ∃ t, inTopo (runX (mk n K h true batches) sched).s.K (runX (mk n K h true batches) sched).s.h t ∧
+      Blk.ready (runX (mk n K h true batches) sched) t :=
+  Blk.exists_ready _ (Blk.jinv_run _ sched (Blk.jinv_init n K h batches hK hh hb)) hnt
+
 end C06
